@@ -1,6 +1,7 @@
 package props
 
 import (
+	stdx509 "crypto/x509"
 	"net"
 	"strings"
 	"sync"
@@ -47,6 +48,14 @@ type simPKI struct {
 	ForgedInter       *kit.Cert            // names the (ECDSA) root as issuer, signed by a stranger's P-256 key
 	ServerForgedLeaf  map[string]*kit.Cert // names InterEC as issuer, signed by a stranger's P-256 key: chain leaf, InterEC
 	ServerUnderForged map[string]*kit.Cert // properly signed by ForgedInter: chain leaf, ForgedInter
+	ServerPrefix      map[string][]*kit.Cert // names that are label-wise prefixes of the server name: "server.sim", "*.sim", "server"
+	InterNoSign       *kit.Cert              // CA:TRUE under the root, keyUsage digitalSignature|cRLSign (no keyCertSign)
+	ServerUnderNoSign map[string]*kit.Cert
+	ClientUnderNoSign map[string]*kit.Cert
+	MixExpired        *kit.Cert // "Sim Reissued CA": expired since 1999-12-20, no extended key usage
+	MixEmail          *kit.Cert // the same subject and key re-issued: valid, extended key usage emailProtection only
+	ServerUnderMix    map[string]*kit.Cert
+	ClientUnderMix    map[string]*kit.Cert
 	ClientForgedLeaf  map[string]*kit.Cert
 	RootPool, BadPool *zx509.CertPool
 	InterPool         *zx509.CertPool
@@ -112,6 +121,24 @@ func pki() *simPKI {
 			p.ServerForgedLeaf[kind] = kit.MakeCert(kit.CertSpec{Name: serverName, Key: keyOfKind[kind], Issuer: p.InterEC, IssuerKey: "p256_15", DNSNames: []string{serverName}, Serial: n + 7})
 			p.ServerUnderForged[kind] = kit.MakeCert(kit.CertSpec{Name: serverName, Key: keyOfKind[kind], Issuer: p.ForgedInter, DNSNames: []string{serverName}, Serial: n + 8})
 			p.ClientForgedLeaf[kind] = kit.MakeCert(kit.CertSpec{Name: "client-" + kind, Key: clientKeyOfKind[kind], Issuer: p.InterEC, IssuerKey: "p256_15", Serial: n + 9, ClientAuth: true})
+		}
+		p.ServerPrefix, p.ServerUnderNoSign, p.ClientUnderNoSign = map[string][]*kit.Cert{}, map[string]*kit.Cert{}, map[string]*kit.Cert{}
+		p.ServerUnderMix, p.ClientUnderMix = map[string]*kit.Cert{}, map[string]*kit.Cert{}
+		p.InterNoSign = kit.MakeCert(kit.CertSpec{Name: "CA without keyCertSign", Key: "p256_10", IsCA: true, MaxPathLen: 0, Issuer: p.Root, Serial: 9,
+			KeyUsage: int(stdx509.KeyUsageDigitalSignature | stdx509.KeyUsageCRLSign)})
+		p.MixExpired = kit.MakeCert(kit.CertSpec{Name: "Sim Reissued CA", Key: "p256_9", IsCA: true, MaxPathLen: 0, Issuer: p.Root, Serial: 10,
+			NotBefore: time.Date(1999, 1, 1, 0, 0, 0, 0, time.UTC), NotAfter: time.Date(1999, 12, 20, 0, 0, 0, 0, time.UTC)})
+		p.MixEmail = kit.MakeCert(kit.CertSpec{Name: "Sim Reissued CA", Key: "p256_9", IsCA: true, MaxPathLen: 0, Issuer: p.Root, Serial: 11, EmailEKU: true})
+		n = 400
+		for _, kind := range []string{"rsa", "p256", "p384", "ed"} {
+			n += 10
+			for i, name := range []string{"server.sim", "*.sim", "server"} {
+				p.ServerPrefix[kind] = append(p.ServerPrefix[kind], kit.MakeCert(kit.CertSpec{Name: name, Key: keyOfKind[kind], Issuer: p.Inter, DNSNames: []string{name}, Serial: n + int64(i)}))
+			}
+			p.ServerUnderNoSign[kind] = kit.MakeCert(kit.CertSpec{Name: serverName, Key: keyOfKind[kind], Issuer: p.InterNoSign, DNSNames: []string{serverName}, Serial: n + 3})
+			p.ClientUnderNoSign[kind] = kit.MakeCert(kit.CertSpec{Name: "client-" + kind, Key: clientKeyOfKind[kind], Issuer: p.InterNoSign, Serial: n + 4, ClientAuth: true})
+			p.ServerUnderMix[kind] = kit.MakeCert(kit.CertSpec{Name: serverName, Key: keyOfKind[kind], Issuer: p.MixEmail, DNSNames: []string{serverName}, Serial: n + 5})
+			p.ClientUnderMix[kind] = kit.MakeCert(kit.CertSpec{Name: "client-" + kind, Key: clientKeyOfKind[kind], Issuer: p.MixEmail, Serial: n + 6, ClientAuth: true})
 		}
 		p.RootPool = zx509.NewCertPool()
 		p.RootPool.AddCert(zparse(p.Root.DER))
